@@ -31,7 +31,7 @@ const c20Whoami = "whoami.example.com."
 
 // C20Query is one query of a client. Special shapes have Q < 0.
 type C20Query struct {
-	Q        int  `json:"q"` // >= 0: gen.Queries; -1: message without a question; -2: whoami (lower case); -3: whoami (mixed case)
+	Q        int  `json:"q"` // >= 0: gen.Queries; -1: message without a question; -2: whoami (lower case); -3: whoami (mixed case); -4 / -5: ANY for the whoami name (lower / mixed case)
 	TCP      bool `json:"tcp,omitempty"`
 	EDNS     int  `json:"edns,omitempty"` // advertised UDP size (0 = no EDNS)
 	Listener int  `json:"listener"`
@@ -78,6 +78,8 @@ func drawC20(rt *rapid.T, tier string) C20Scenario {
 			x.Q = -2
 		case 2:
 			x.Q = -3
+		case 6:
+			x.Q = -4 - rapid.IntRange(0, 1).Draw(rt, "any_whoami_case")
 		case 3, 4:
 			x.Q = gen.BigQuery
 		case 5:
@@ -122,6 +124,10 @@ func summaryC20(sc C20Scenario) interface{} {
 				name = "whoami"
 			case q.Q == -3:
 				name = "WhoAmI"
+			case q.Q == -4:
+				name = "whoami/ANY"
+			case q.Q == -5:
+				name = "WhoAmI/ANY"
 			default:
 				qq := gen.Queries[q.Q%len(gen.Queries)]
 				name = qq.Name + "/" + dns.TypeToString[qq.Type]
@@ -156,6 +162,12 @@ func c20Request(q C20Query, id uint16) *dns.Msg {
 	case -3:
 		m = new(dns.Msg)
 		m.SetQuestion("WhoAmI.Example.COM.", dns.TypeTXT)
+	case -4:
+		m = new(dns.Msg)
+		m.SetQuestion(c20Whoami, dns.TypeANY)
+	case -5:
+		m = new(dns.Msg)
+		m.SetQuestion("WhoAmI.Example.COM.", dns.TypeANY)
 	default:
 		m = gen.MakeQuery(q.Q, false, "", id)
 	}
@@ -257,7 +269,13 @@ func runC20(t *testing.T, sc C20Scenario, keep bool) *core.Result {
 					res.Probe("whoami_answered")
 					return
 				}
-			case q.Q >= 0 && gen.Queries[q.Q%len(gen.Queries)].Type == dns.TypeANY && sc.RefuseANY:
+			case (q.Q == -4 || q.Q == -5) && !sc.RefuseANY && sc.Whoami:
+				// ANY for the whoami name with refusal off: the whoami handler answers (no TXT asked: empty answer)
+				if m.Rcode != dns.RcodeSuccess || !m.Authoritative {
+					res.Add("whoami-wrong", "whoami-wrong|any", fmt.Sprintf("%s: ANY for the whoami name not answered by the whoami handler: rcode %d", where, m.Rcode))
+				}
+				return
+			case ((q.Q == -4 || q.Q == -5) || q.Q >= 0 && gen.Queries[q.Q%len(gen.Queries)].Type == dns.TypeANY) && sc.RefuseANY:
 				ok := len(m.Answer) == 1 && len(m.Ns) == 0
 				if ok {
 					h, isH := m.Answer[0].(*dns.HINFO)
